@@ -229,6 +229,25 @@ def run(ctx, prop, focus, n_hist, n_stall, stall_programs=1, n_istall=0):
         ctx.count("retirement-window-histories")
         if inj.hits > hits0:
             ctx.count("retirement-window-stalls-hit")
+    # 2c. submissions that land inside start(): the controller parked at each of its lines while another thread submits
+    #     its only tasks
+    cmine = [pt for pt in mine if pt["role"] == "controller"]
+    for pt in cmine[:max(8, n_stall // 3)]:
+        if ctx.time_left() < 5:
+            break
+        prog = poolmon.gen_program_enqueue_during_start(rng)
+        plan = dict(pt, k=1, budget=10 ** 9, cap=0.05)
+        hits0 = inj.hits
+        run_one(ctx, prop, inj, prog, "stall", rng.randrange(1 << 30), plan=plan)
+        ctx.count("enqueue-during-start-histories")
+        if inj.hits > hits0:
+            ctx.count("enqueue-during-start-stalls-hit")
+    for i in range(max(3, n_hist // 20)):
+        if ctx.time_left() < 5:
+            break
+        prog = poolmon.gen_program_enqueue_during_start(rng)
+        run_one(ctx, prop, inj, prog, "yield", rng.randrange(1 << 30), p=rng.choice([0.05, 0.2, 0.5]))
+        ctx.count("enqueue-during-start-histories")
     for i in range(max(3, n_hist // 20)):
         if ctx.time_left() < 5:
             break
